@@ -103,11 +103,119 @@ let model_parse src =
   | E.ParsePanic -> "PANIC"
   | E.ParseOutOfFuel -> "OUTOFFUEL"
 
+(* ---------- data descriptions (harness/data.go) -> goval *)
+
+type sx = A of string | L of sx list
+
+let parse_sx (s : string) : sx =
+  let n = String.length s in
+  let pos = ref 0 in
+  let rec skip () = if !pos < n && (s.[!pos] = ' ' || s.[!pos] = '\n') then (incr pos; skip ()) in
+  let rec rd () =
+    skip ();
+    if !pos >= n then failwith "sx: unexpected end";
+    if s.[!pos] = '(' then begin
+      incr pos;
+      let items = ref [] in
+      let fin = ref false in
+      while not !fin do
+        skip ();
+        if !pos >= n then failwith "sx: unterminated";
+        if s.[!pos] = ')' then (incr pos; fin := true) else items := rd () :: !items
+      done;
+      L (List.rev !items)
+    end else begin
+      let st = !pos in
+      while !pos < n && s.[!pos] <> ' ' && s.[!pos] <> '(' && s.[!pos] <> ')' && s.[!pos] <> '\n' do incr pos done;
+      A (String.sub s st (!pos - st))
+    end
+  in
+  rd ()
+
+(* decimal / hex text -> Z without going through OCaml ints (int64 range and beyond) *)
+let z_of_dec (s : string) : E.z =
+  let neg = String.length s > 0 && s.[0] = '-' in
+  let digits = if neg then String.sub s 1 (String.length s - 1) else s in
+  let v = E.decz E.Z0 (bytes_of_string digits) in
+  if neg then E.Z.opp v else v
+
+let z_of_hex (s : string) : E.z =
+  let acc = ref E.Z0 in
+  String.iter
+    (fun c ->
+      let d = match c with '0' .. '9' -> Char.code c - 48 | 'a' .. 'f' -> Char.code c - 87 | _ -> failwith "hex" in
+      acc := E.Z.add (E.Z.mul !acc (z_of_int 16)) (z_of_int d))
+    s;
+  !acc
+
+let rec goval_of_sx (x : sx) : E.goval =
+  match x with
+  | L (A "nil" :: _) -> E.GNil
+  | L [ A "bool"; A b ] -> E.GBool (b = "1")
+  | L [ A ("int" | "int8" | "int16" | "int32" | "int64" | "uint" | "uint8" | "uint16" | "uint32" | "uint64"); A v ] ->
+      E.GInt (z_of_dec v)
+  | L [ A ("f64" | "f32"); A bits ] -> E.GFloat (E.f_of_bits (z_of_hex bits))
+  | L [ A "str"; A h ] -> E.GStr (bytes_of_string (unhex h))
+  | L (A "slice" :: items) -> E.GSlice (List.map goval_of_sx items)
+  | L (A "tslice" :: _ :: items) -> E.GSlice (List.map goval_of_sx items)
+  | L (A "map" :: items) -> E.GMap (List.map kv_of_sx items)
+  | L (A "tmap" :: _ :: items) -> E.GMap (List.map kv_of_sx items)
+  | L (A "struct" :: fields) ->
+      E.GStruct
+        (List.map
+           (function
+             | L [ A name; v ] ->
+                 let c = name.[0] in
+                 ((bytes_of_string name, c >= 'A' && c <= 'Z'), goval_of_sx v)
+             | _ -> failwith "struct field")
+           fields)
+  | L [ A "ptr"; v ] -> E.GPtr (goval_of_sx v)
+  | L (A "nilptr" :: _) -> E.GNilPtr
+  | L (A ("chan" | "func" | "complex" | "array2" | "imap") :: _) -> E.GOther
+  | _ -> failwith "unknown data value"
+
+and kv_of_sx = function
+  | L [ A k; v ] -> (bytes_of_string (unhex k), goval_of_sx v)
+  | _ -> failwith "bad pair"
+
+let data_of_string (s : string) : (E.bytes * E.goval) list =
+  if s = "" then []
+  else match parse_sx s with L items -> List.map kv_of_sx items | _ -> failwith "data must be a list"
+
+(* ---------- render *)
+
+let empty_ctx : E.ctx = { E.custom = [] }
+
+let show_render (r : E.render_result) : string =
+  match r with
+  | E.RenderOk out -> "RENDER\tOK\t" ^ hexb out
+  | E.RenderErr (ln, msg) -> Printf.sprintf "RENDER\tERR\t%s\t-\t%s" (ni ln) (hexb msg)
+  | E.RenderUnsupportedData -> "RENDER\tUNSUPPORTED-DATA"
+  | E.RenderPanic -> "PANIC"
+  | E.RenderOutOfFuel -> "HANG"
+  | E.RenderUnmodelled -> "UNMODELLED"
+
+let model_render src data =
+  show_render (E.evaluate_string empty_ctx (bytes_of_string src) (data_of_string data))
+
 (* ---------- dispatch *)
 
 let model_obs (f : string list) : string =
   match f with
   | _ :: "lex" :: src :: _ -> model_lex (unhex src)
   | _ :: "parse" :: src :: _ -> model_parse (unhex src)
+  | [ _; "render"; src ] -> model_render (unhex src) ""
+  | _ :: "render" :: src :: data :: _ -> model_render (unhex src) (unhex data)
   | _ -> "UNMODELLED\tunknown kind"
 
+
+(* canonical comparison of the model's observation with the implementation's *)
+let same_obs (m : string) (impl : string) : bool =
+  if m = impl then true
+  else
+    let mf = String.split_on_char '\t' m and imf = String.split_on_char '\t' impl in
+    match mf, imf with
+    | [ "PANIC" ], "PANIC" :: _ -> true
+    | [ "RENDER"; "UNSUPPORTED-DATA" ], [ "RENDER"; "ERR"; "0"; "-"; msg ] ->
+        starts_with "unsupported type '" (unhex msg)
+    | _ -> false
